@@ -660,6 +660,134 @@ def replacement_props(ctx, rounds):
 
 
 
+def perdim_props(ctx, rounds):
+    """per-dimension end-point arrays MIXING finite and infinite end points (own storage order): every slice must get the value of the
+    five scores for its own end points -- the exact oracle with each infinite end point replaced by a finite one far beyond the data --
+    whatever the other slices' end points are"""
+    rng = ctx.rng
+    for _ in range(rounds):
+        if not ctx.time_left():
+            break
+        n = rng.randint(2, 4)
+        fv = [Fr(rng.randint(-8, 8), 2) for _ in range(n)]
+        ov = [fv[i] if rng.random() < 0.15 else Fr(rng.randint(-8, 8), 2) for i in range(n)]
+        trap = rng.random() < 0.6
+        b, c, a, d = [], [], [], []
+        for i in range(n):
+            lo = Fr(rng.randint(-8, 2), 2)
+            hi = lo + Fr(rng.randint(1, 6), 2)
+            b.append(None if rng.random() < 0.35 else lo)
+            c.append(None if rng.random() < 0.45 else hi)
+            a.append(None if b[i] is None else lo - Fr(rng.randint(1, 3), 2))
+            d.append(None if c[i] is None else hi + Fr(rng.randint(1, 3), 2))
+        if all(x is None for x in c) or all(x is not None for x in c):     # make the right end points mixed
+            c[0], d[0] = None, None
+            hi = Fr(rng.randint(-6, 0), 2)
+            c[1], d[1] = max(hi, (b[1] if b[1] is not None else hi - 1) + Fr(1, 2)), None
+            d[1] = c[1] + 1
+        perm = {k: rng.sample(range(n), n) for k in "fobcad"}
+
+        def arr(vals, key, lo_inf):
+            inf = -INF if lo_inf else INF
+            return xr.DataArray([inf if vals[i] is None else float(vals[i]) for i in perm[key]], dims=["x"], coords={"x": perm[key]})
+        F = xr.DataArray([float(fv[i]) for i in perm["f"]], dims=["x"], coords={"x": perm["f"]})
+        O = xr.DataArray([float(ov[i]) for i in perm["o"]], dims=["x"], coords={"x": perm["o"]})
+        one = (arr(b, "b", True), arr(c, "c", False))
+        pos = (arr(a, "a", True), arr(d, "d", False)) if trap else None
+        alpha, hub = rng.choice(ALPHAS), rng.choice(HUBERS)
+        far_lo, far_hi = min(fv + ov) - 50, max(fv + ov) + 50
+        for k, fn in enumerate(FNS):
+            p = {"tw_quantile_score": alpha, "tw_expectile_score": alpha, "tw_huber_loss": hub}.get(fn)
+            st, v = call_tw(fn, F, O, p, one, pos, pd="all")
+            case = {"fn": fn, "param": p, "fcst": fv, "obs": ov, "interval_where_one": [["-inf" if x is None else x for x in b], ["inf" if x is None else x for x in c]],
+                    "interval_where_positive": None if not trap else [["-inf" if x is None else x for x in a], ["inf" if x is None else x for x in d]],
+                    "storage_order": perm}
+            ctx.case(("perdim", fn, repr(case)))
+            if st != "ok":
+                ctx.violation("tw_* raised on valid per-dimension end points", case, "values", v)
+                continue
+            got = v.sortby("x").values
+            for i in range(n):
+                bb = far_lo - 1 if b[i] is None else b[i]
+                cc = far_hi + 1 if c[i] is None else c[i]
+                ends = (bb, cc) if not trap else ((far_lo - 2 if a[i] is None else a[i]), bb, cc, (far_hi + 2 if d[i] is None else d[i]))
+                want = orc_tw(ends, alpha, hub, fv[i], ov[i])[k]
+                if not core.close(float(got[i]), want):
+                    ctx.violation("tw_* with per-dimension end points mixing finite and infinite values differs from the score for the slice's own end points",
+                                  dict(case, slice=i), want, float(got[i]))
+                    break
+        ctx.count("perdim_rounds")
+
+
+
+def means_props(ctx, rounds):
+    """reductions: the reduced score is the mean over the valid (fcst and obs present) cases of weight x pointwise score, paired by label
+    (fcst, obs, weights in independent storage orders, NaN, exact hits fcst == obs), against the exact oracle"""
+    rng = ctx.rng
+    for _ in range(rounds):
+        if not ctx.time_left():
+            break
+        na, nb = rng.randint(1, 3), rng.randint(1, 3)
+        fv = [[None if rng.random() < 0.15 else Fr(rng.randint(-8, 8), 2) for _ in range(nb)] for _ in range(na)]
+        full = rng.random() < 0.5
+        ovf = [[None if rng.random() < 0.15 else (fv[i][l] if rng.random() < 0.2 else Fr(rng.randint(-8, 8), 2)) for l in range(nb)] for i in range(na)]
+        if not full:
+            ovf = [list(ovf[0]) for _ in range(na)]
+        wv = [Fr(rng.randint(0, 6), 2) for _ in range(nb)] if rng.random() < 0.4 else None
+        pa, pb, pao, pbo, pbw = (rng.sample(range(na), na), rng.sample(range(nb), nb), rng.sample(range(na), na), rng.sample(range(nb), nb), rng.sample(range(nb), nb))
+        fl = lambda v: NAN if v is None else float(v)      # noqa: E731
+        F = xr.DataArray([[fl(fv[i][l]) for l in pb] for i in pa], dims=["a", "b"], coords={"a": pa, "b": pb})
+        if full:
+            O = xr.DataArray([[fl(ovf[i][l]) for l in pbo] for i in pao], dims=["a", "b"], coords={"a": pao, "b": pbo})
+        else:
+            O = xr.DataArray([fl(ovf[0][l]) for l in pbo], dims=["b"], coords={"b": pbo})
+        W = None if wv is None else xr.DataArray([float(wv[l]) for l in pbw], dims=["b"], coords={"b": pbw})
+        lo = Fr(rng.randint(-6, 2), 2)
+        hi = lo + Fr(rng.randint(1, 8), 2)
+        inf_l, inf_r, trap = rng.random() < 0.3, rng.random() < 0.3, rng.random() < 0.5
+        one = (-INF if inf_l else float(lo), INF if inf_r else float(hi))
+        pos = ((-INF if inf_l else float(lo - 1), INF if inf_r else float(hi + Fr(3, 2))) if trap else None)
+        vals = [v for row in fv for v in row if v is not None] + [v for row in ovf for v in row if v is not None]
+        far_lo, far_hi = (min(vals) if vals else Fr(0)) - 50, (max(vals) if vals else Fr(0)) + 50
+        bb, cc = (far_lo if inf_l else lo), (far_hi if inf_r else hi)
+        ends = (bb, cc) if not trap else ((far_lo - 1 if inf_l else lo - 1), bb, cc, (far_hi + 1 if inf_r else hi + Fr(3, 2)))
+        alpha, hub = rng.choice(ALPHAS), rng.choice(HUBERS)
+        red = rng.choice([None, ["a"], ["b"], ["a", "b"]])
+        rset = {"a", "b"} if red is None else set(red)
+        keep = [d for d in ("a", "b") if d not in rset]
+        for k, fn in enumerate(FNS):
+            p = {"tw_quantile_score": alpha, "tw_expectile_score": alpha, "tw_huber_loss": hub}.get(fn)
+            st, v = call_tw(fn, F, O, p, one, pos, rd=red, w=W)
+            case = {"fn": fn, "param": p, "fcst[a][b]": fv, "obs[a][b]": ovf, "weights[b]": wv, "interval_where_one": one, "interval_where_positive": pos,
+                    "reduce_dims": red, "storage_order": {"fcst": [pa, pb], "obs": [pao if full else None, pbo], "weights": pbw}}
+            ctx.case(("means", fn, repr(case)))
+            if st != "ok":
+                ctx.violation("tw_* raised on valid input", case, "values", v)
+                continue
+            da = v
+            for dname in keep:
+                da = da.sortby(dname)
+            got = da.transpose(*keep).values
+            cell = {}
+            for i in range(na):
+                for l in range(nb):
+                    key = tuple(x for x, dname in ((i, "a"), (l, "b")) if dname not in rset)
+                    cell.setdefault(key, [])
+                    if fv[i][l] is not None and ovf[i][l] is not None:
+                        cell[key].append((1 if wv is None else wv[l]) * orc_tw(ends, alpha, hub, fv[i][l], ovf[i][l])[k])
+            bad = False
+            for key, vs in cell.items():
+                want = sum(vs) / len(vs) if vs else NAN
+                if not core.close(float(got[key]), want):
+                    ctx.violation("reduced tw_* differs from the mean over the valid cases of weight x pointwise score", dict(case, cell=key), want, float(got[key]))
+                    bad = True
+                    break
+            if bad:
+                break
+        ctx.count("means_rounds")
+
+
+
 def coord_order_finding(ctx):
     """corpus of repaired defects (5f9b684, 471de49, aeac0ee, 7c177ef): results must not depend on the storage order of a shared coordinate, and
     an end-point pair may mix arrays and Python scalars; a regression is a violation"""
@@ -739,6 +867,8 @@ def run_without_model(ctx):
     coord_order_finding(ctx)
     guard_probes(ctx)
     replacement_props(ctx, ctx.n(6, 80))
+    perdim_props(ctx, ctx.n(25, 400))
+    means_props(ctx, ctx.n(25, 400))
     integral_props(ctx, ctx.n(25, 400))
     pointwise_props(ctx, ctx.n(3, 40), use_model=False)
 
@@ -754,6 +884,8 @@ def run(ctx):
     coord_order_finding(ctx)
     guard_probes(ctx)
     replacement_props(ctx, ctx.n(6, 80))
+    perdim_props(ctx, ctx.n(25, 400))
+    means_props(ctx, ctx.n(25, 400))
     integral_props(ctx, ctx.n(25, 400))
     # ---- public functions vs model, structured random cases ----
     for i in range(ctx.n(260, 4000)):
